@@ -66,6 +66,12 @@ def run_case(case):
         b.create_portfolio('z_other')            # orders of 'p' must fill into 'p', whatever else the account holds
         cls_other = True
     twin = bool(case.get('twin'))
+    # an equal-weight optimiser between alpha model and sizer (only when every rebalance has an alpha model that names
+    # at least one asset): the named assets share the weight equally, every other asset of the vector gets zero
+    equal = case.get('optimiser') == 'equal' and all(rb_['weights'] and not rb_.get('no_alpha') for rb_ in case['rebalances'])
+
+    def make_opt():
+        return q.EqualWeightPortfolioOptimiser(data_handler=dh) if equal else q.FixedWeightPortfolioOptimiser(data_handler=dh)
     if twin:
         # a second portfolio of the same account runs the very same strategy with the same money: every rebalance
         # produces identical orders in both, and both must end on their targets
@@ -97,6 +103,9 @@ def run_case(case):
         else:
             uni = q.StaticUniverse(uni_assets)
         w = {POOL[i]: v for i, v in rb['weights']}
+        w_alpha = dict(w)
+        if equal:
+            w = {a_: 1.0 / len(w) for a_ in w}          # what the optimiser makes of the alpha model's output
         no_alpha = rb.get('no_alpha', False)
         reuse = case.get('reuse', False) and not no_alpha
         if reuse and shared:
@@ -111,11 +120,11 @@ def run_case(case):
                 sizer = (q.LongShortLeveragedOrderSizer(b, 'p', dh) if arg == 'default' else
                          q.LongShortLeveragedOrderSizer(b, 'p', dh, gross_leverage=arg))
             alpha_obj, uni_obj = MutableAlpha(), SwitchUniverse()
-            pcm = q.PortfolioConstructionModel(b, 'p', uni_obj, sizer, q.FixedWeightPortfolioOptimiser(data_handler=dh),
+            pcm = q.PortfolioConstructionModel(b, 'p', uni_obj, sizer, make_opt(),
                                                alpha_model=None if no_alpha else alpha_obj, data_handler=dh)
             if reuse:
                 shared = (pcm, sizer, alpha_obj, uni_obj)
-        alpha_obj.weights = dict(w)
+        alpha_obj.weights = dict(w_alpha)
         uni_obj.inner = uni
         if twin and (twin_objs is None or twin_objs[4] is not pcm):          # rebuilt whenever the model of 'p' is
             arg2 = case['rebalances'][0]['sizer_arg'] if reuse else rb['sizer_arg']
@@ -126,11 +135,11 @@ def run_case(case):
                 sizer2 = (q.LongShortLeveragedOrderSizer(b, 'twin', dh) if arg2 == 'default' else
                           q.LongShortLeveragedOrderSizer(b, 'twin', dh, gross_leverage=arg2))
             a2, u2 = MutableAlpha(), SwitchUniverse()
-            pcm2 = q.PortfolioConstructionModel(b, 'twin', u2, sizer2, q.FixedWeightPortfolioOptimiser(data_handler=dh),
+            pcm2 = q.PortfolioConstructionModel(b, 'twin', u2, sizer2, make_opt(),
                                                 alpha_model=None if no_alpha else a2, data_handler=dh)
             twin_objs = (pcm2, sizer2, a2, u2, pcm)
         if twin:
-            twin_objs[2].weights = dict(w)
+            twin_objs[2].weights = dict(w_alpha)
             twin_objs[3].inner = uni
         held = {a: d['quantity'] for a, d in b.get_portfolio_as_dict('p').items()}
         in_uni = list(uni.get_assets(tc))
@@ -236,6 +245,8 @@ def run_case(case):
         cls.add('second_portfolio_on_account')
         if b.portfolios['z_other'].history or b.portfolios['z_other'].portfolio_to_dict():
             raise Violation('the other portfolio of the account received fills or cash: %s' % b.portfolios['z_other'].portfolio_to_dict())
+    if equal:
+        cls.add('equal_weight_optimiser')
     cls.add('rebalances_%d' % len(case['rebalances']))
     return Result(sorted(cls), nontrivial=nt, info=info)
 
@@ -279,7 +290,8 @@ def cases(draw):
     return {'long_only': long_only, 'cash': cash, 'prices': prices, 'holdings': holdings,
             'fee': draw(st.sampled_from([None, None, [0.001, 0.0], [0.001, 0.005]])), 'rebalances': rebs,
             'reuse': draw(st.sampled_from([True, True, False])), 'other_portfolio': draw(st.booleans()),
-            'twin': draw(st.sampled_from([False, False, True]))}
+            'twin': draw(st.sampled_from([False, False, True])),
+            'optimiser': draw(st.sampled_from(['fixed', 'fixed', 'equal']))}
 
 
 PARTS = [
